@@ -838,24 +838,35 @@ def replay_all(chk, jobs, label):
     return applied
 
 
-GEN = {'quick': [('AB', 'Gen_Router_quick.cfg', {})],
-       'thorough': [('AB', 'Gen_Router_thorough.cfg', {})]}
+GEN = {'quick': [('AB', 'Gen_Router_quick.cfg', {}), ('A', 'Gen_Router_A_quick.cfg', {}),
+                 ('Coll', 'Gen_Router_coll_quick.cfg', {}), ('ABdown', 'Gen_Router_down_quick.cfg', {}),
+                 ('AB', 'Gen_Router_sim.cfg', {'simulate': 'num=150', 'depth': 9})],
+       'thorough': [('AB', 'Gen_Router_thorough.cfg', {}), ('A', 'Gen_Router_A_thorough.cfg', {}),
+                    ('Coll', 'Gen_Router_coll_thorough.cfg', {}), ('ABdown', 'Gen_Router_down_thorough.cfg', {}),
+                    ('AB', 'Gen_Router_sim.cfg', {'simulate': 'num=3000', 'depth': 12})]}
 
 
 def run(chk):
+    from ..core import run_parallel
     quick = chk.tier == 'quick'
     chk.rule = 'x'
     for m in ('Router', 'Gen_Router'):
         sany(m)
-    chk.add_tlc(model_check('Router', 'MC_Router_quick.cfg' if quick else 'MC_Router_thorough.cfg', timeout=900))
-    jobs = []
+    thunks = [lambda: model_check('Router', 'MC_Router_quick.cfg' if quick else 'MC_Router_thorough.cfg', timeout=900)]
     for layout, cfg, kw in GEN[chk.tier]:
-        r, behs = emit_behaviours('Gen_Router', cfg, maximal_only=False, timeout=600, **kw)
+        if 'simulate' in kw:
+            kw = dict(kw, seed=chk.seed + 1)
+        thunks.append(lambda cfg=cfg, kw=kw: emit_behaviours('Gen_Router', cfg, maximal_only=False, timeout=600, **kw))
+    results = run_parallel(thunks, width=3)
+    chk.add_tlc(results[0])
+    jobs = []
+    for (layout, cfg, kw), (r, behs) in zip(GEN[chk.tier], results[1:]):
         chk.add_tlc(r)
         jobs += [(layout, b) for b in behs]
+        chk.notes.setdefault('generated', {})[cfg + (' (simulated)' if kw else '')] = len(behs)
     for layout, beh in jobs:
         chk.case(json.dumps([layout, inputs(beh)], sort_keys=True), len(beh) > 1)
-    replay_all(chk, jobs, 'exhaustive')
+    replay_all(chk, jobs, 'tlc behaviours')
 
 
 def replay(chk, rep):
